@@ -156,6 +156,7 @@ def run_history(pcfg, cuts, exact=True, with_queue=True, max_pops=None):
     sessions = []
     cfg_text = None
     exhausted = False
+    raised = None
     for si in range(len(cuts) + 1):
         if cfg_text is None:
             q = PcfgQueue(pcfg)
@@ -170,7 +171,11 @@ def run_history(pcfg, cuts, exact=True, with_queue=True, max_pops=None):
         cut = cuts[si] if si < len(cuts) else None
         n = 0
         while True:
-            it = q.next()
+            try:
+                it = q.next()
+            except Exception as ex:      # the code under test raised while enumerating
+                raised = repr(ex)
+                break
             if it is None:
                 exhausted = True
                 break
@@ -189,9 +194,9 @@ def run_history(pcfg, cuts, exact=True, with_queue=True, max_pops=None):
             if max_pops is not None and cut is None and n >= max_pops:
                 break
         sessions.append(sess)
-        if exhausted:
+        if exhausted or raised:
             break
-    return {'sessions': sessions, 'exhausted': exhausted}
+    return {'sessions': sessions, 'exhausted': exhausted, 'raised': raised}
 
 
 def to_traces(tid, pcfg, hist, mode, exact=True, int_grammar=None, ev2=None, meta=None, bad_groups=()):
@@ -217,7 +222,8 @@ def to_traces(tid, pcfg, hist, mode, exact=True, int_grammar=None, ev2=None, met
             evs.append({'s': nm[0], 'n': nm[1], 'r': rank[it['prob']], 'ok': bool(prob_ok(pcfg, it, exact, bad_groups))})
         sess_out.append({'saved': INF if s['saved'] is None else rank[s['saved']], 'ev': evs})
     p = {'tid': tid, 'mode': mode, 'sizes': sizes_of(pcfg), 'sess': sess_out,
-         'exhausted': bool(hist['exhausted']), 'ev2': ev2 if ev2 is not None else sess_out[0]['ev']}
+         'exhausted': bool(hist['exhausted']), 'ev2': ev2 if ev2 is not None else sess_out[0]['ev'],
+         'raised': bool(hist.get('raised'))}
     if meta:
         p['meta'] = meta
     itrace = None
